@@ -583,6 +583,10 @@ class An(ResultQuantifier[T]):
     """Quantifier that yields all matching results one by one."""
 
     _running_evaluation_: Optional[object] = field(init=False, repr=False, default=None)
+    _constrained_variable_: Optional[Variable] = field(init=False, repr=False, default=None)
+    """
+    The variable whose keyword constraints this query expresses, if it was made for that.
+    """
 
     def __post_init__(self):
         super().__post_init__()
@@ -638,15 +642,25 @@ class An(ResultQuantifier[T]):
             self._yield_when_false_ = yield_when_false
             any_yielded = False
             self._child_._eval_parent_ = self
-            values = self._child_._evaluate__(sources, yield_when_false=self._yield_when_false_)
-            for value in values:
-                any_yielded = True
-                self._is_false_ = self._child_._is_false_
-                if self._yield_when_false_ or not self._is_false_:
-                    value.update(sources)
-                    if self._var_:
-                        value.update({self._id_: value[self._var_._id_]})
-                    yield value
+            # Once the constraints of a variable stand in the tree in its place they are entered from the tree as well as
+            # through the variable: either way the variable must take its values from its domain while they are evaluated.
+            constrained = self._constrained_variable_
+            entered_from_tree = constrained is not None and not constrained._evaluating_kwargs_expression_
+            if entered_from_tree:
+                constrained._evaluating_kwargs_expression_ = True
+            try:
+                values = self._child_._evaluate__(sources, yield_when_false=self._yield_when_false_)
+                for value in values:
+                    any_yielded = True
+                    self._is_false_ = self._child_._is_false_
+                    if self._yield_when_false_ or not self._is_false_:
+                        value.update(sources)
+                        if self._var_:
+                            value.update({self._id_: value[self._var_._id_]})
+                        yield value
+            finally:
+                if entered_from_tree:
+                    constrained._evaluating_kwargs_expression_ = False
 
 
 @dataclass(eq=False)
@@ -997,6 +1011,7 @@ class Variable(CanBehaveLikeAVariable[T]):
             parents = [p for p in self._node_.parents]
             self._kwargs_expression_, attributes = properties_to_expression_tree(self, self._child_vars_)
             self._kwargs_expression_ = An(Entity(self._kwargs_expression_, [self]))
+            self._kwargs_expression_._constrained_variable_ = self
             self._replace_expression_with_(self._kwargs_expression_, parents)
 
     def _replace_expression_with_(self, new_expression: SymbolicExpression,
